@@ -3,7 +3,7 @@
 From Coq Require Import List ZArith NArith Bool Lia.
 From RecordUpdate Require Import RecordSet.
 From PC.Base Require Import Assoc.
-From PC.Sup Require Import Model Monitors Tactics Sim ObsFacts Effects RelCore LemC02 RelC02defs RelC02t RelC02t2 RelC02b RelC02c RelC02d RelC02d2.
+From PC.Sup Require Import Model Monitors Tactics Sim ObsFacts Effects RelCore LemC02 RelC02defs RelC02t RelC02t2 RelC02t3 RelC02b RelC02c RelC02d RelC02d2.
 Import ListNotations RecordSetNotations.
 
 Section F.
